@@ -431,6 +431,14 @@ def judge_seq(ops, out):
                         "context, no cb_conn, their bytes never reach cb_msg" % miss[:8])
             pending = {}
     for l in out:
+        # life-cycle of an announced context: whoever was announced through cb_conn / cb_add_ctx is
+        # released exactly once before its memory is freed (closed at most once: a context still
+        # registered when the loop exits is cleared, i.e. released without cb_close)
+        for m in re.finditer(r"c(\d+):F r\S+ k(\d+) a(\d+) x(\d+) l(\d+)", l):
+            c, k, a, x, rel = (int(g) for g in m.groups())
+            if (k or a) and (x > 1 or rel != 1):
+                return ("context c%d was announced (cb_conn=%d cb_add_ctx=%d) and then freed with cb_close=%d "
+                        "cb_release=%d" % (c, k, a, x, rel))
         if "TIMEOUT" in l:
             return "the event loop did not reach quiescence (hang)"
         if l.startswith("end "):
